@@ -341,6 +341,46 @@ def relink_only(m, cmd, diffs, prone=()):
     return True
 
 
+def held_twice_earlier(m, case, upto, pre, cmd):
+    """was an object that `cmd` deletes (or one of its contents) held MORE THAN ONCE, at some earlier point of
+    the history or of the word, in a non-unique many-valued reference without opposite of an object that the
+    command does not delete?  (decided by replaying the case on a scratch world)"""
+    dead = set()
+    for p in flatten(cmd):
+        if p[0] == 'Delete':
+            dead |= set(koracle.subtree(m, pre, p[1]))
+    if not dead:
+        return False
+    slots = [fi for fi, (_, fd) in enumerate(m.ff)
+             if fd['kind'] == 'ref' and fd['many'] and not fd['unique'] and m.opp.get(fi) is None]
+    if not slots:
+        return False
+
+    def twice(d):
+        for h, od in enumerate(d['objs']):
+            if h in dead:
+                continue
+            for fi in slots:
+                os_ = koracle.objs_of(od['feats'].get(fi, []))
+                if any(os_.count(t) > 1 for t in dead):
+                    return True
+        return False
+
+    sc = c06impl.CmdWorld(dict(case, history=[], word=[]), observers=False)
+    try:
+        for op in case['history']:
+            sc.w.apply(op)
+            if twice(sc.dump()):
+                return True
+        for sop in case['word'][:upto]:
+            sc.do(sop)
+            if twice(sc.dump()):
+                return True
+    except RecursionError:
+        return False
+    return False
+
+
 def twice_recorded(m, pre, cmd):
     """does a deleted subtree contain both the holder and the target of a link of a non-unique many-valued
     reference without opposite?  (Delete records such a link twice: among the holder's own references and
@@ -367,7 +407,7 @@ def signature(m, clause, cmd, pre, diffs, extra=(), prone=()):
     shape = {}
     if cmd and k not in ('Delete', 'Compound') and cmd[2] < len(m.ff):
         shape = krun.shape(m, ['cmd', cmd[1], cmd[2]])
-    if cmd and diffs and not [x for x in extra if x not in ('partial-effect',)] and relink_only(m, cmd, diffs, prone):
+    if cmd and diffs and not [x for x in extra if x not in ('partial-effect', 'held-twice-earlier')] and relink_only(m, cmd, diffs, prone):
         # one defect whatever the command and the index: a link is re-established through append() on the
         # many-valued opposite end, so the owner comes back at the end of its partner's collection
         return {'property': PID, 'clause': 'undo' if clause == 'can_execute-raised' else clause, 'kind': 'relink',
@@ -389,6 +429,15 @@ def signature(m, clause, cmd, pre, diffs, extra=(), prone=()):
         # for undo is then wrong (a failing member makes Compound.execute undo the members already run: same clause)
         return {'property': PID, 'clause': 'undo' if clause == 'can_execute-raised' else clause, 'kind': k,
                 'shape': shape, 'qualifiers': ['member-not-executable-when-reached']}
+    if 'held-twice-earlier' in extra and diffs and all(
+            cls == 'content' and key[1] is not None and m.fd(key[1])['kind'] == 'ref' and m.fd(key[1])['many']
+            and not m.fd(key[1])['unique'] and m.opp.get(key[1]) is None for cls, key, _ in diffs):
+        # the C07 defect F-C07-nonunique-duplicate-target seen through C06: the inverse bookkeeping is a set, the
+        # entry of a holder that held the object twice was dropped at the first removal; delete() then leaves the
+        # object in that collection, or not, depending on whether a later insert re-created the entry
+        return {'property': PID, 'clause': 'redo' if clause == 'k-undo-redo' else clause, 'kind': 'Delete', 'shape': {},
+                'qualifiers': ['deleted-object-was-held-twice-in-nonunique-reference-without-opposite']}
+    extra = tuple(x for x in extra if x != 'held-twice-earlier')
     if any(p[0] == 'Delete' for p in flatten(cmd)) and twice_recorded(m, pre, cmd):
         quals_extra = ['link-inside-deleted-subtree-through-nonunique-reference']
         return {'property': PID, 'clause': 'undo' if clause == 'can_execute-raised' else clause, 'kind': 'Delete',
@@ -553,6 +602,8 @@ def evaluate(case, record=True):
                             run_start = None
         if fail:
             clause, cmd, fpre, diffs, extra, what = fail
+            if cmd and has_delete(cmd) and held_twice_earlier(m, case, i, fpre, cmd):
+                extra = tuple(extra) + ('held-twice-earlier',)
             v.failure = {'index': i, 'clause': clause, 'what': f'C06/{clause}: {what}',
                          'signature': signature(m, clause, cmd, fpre, diffs, extra, fprone)}
             break
@@ -933,6 +984,11 @@ CORPUS = [
      'word': [['exec', ['Compound', [['Set', 0, 0, None], ['Set', 1, 0, ['o', 3]]]]], ['undo'], ['redo'], ['undo']]},
     {'templates': ['ai'], 'history': [['set', 0, 0, ['i', 1], 'attr']],
      'word': [['exec', ['Compound', [['Set', 0, 0, ['i', 7]], ['Set', 0, 0, ['i', -1]]]]], ['undo'], ['redo'], ['undo']]},
+    # Delete of an object and its child that one collection without opposite holds both (fix fd7bdda)
+    {'templates': ['ctree', 'rself', 'rbag'],
+     'history': [['assign', 4, 3, [['o', 1], ['o', 2], ['o', 1]], 'list'], ['insert', 4, 3, -4, ['o', 0]],
+                 ['set', 0, 1, ['o', 2], 'eset-feat']],
+     'word': [['exec', ['Delete', 2]], ['undo'], ['redo'], ['undo']]},
 ]
 
 
